@@ -145,6 +145,10 @@ def parse_graphic_sequence(
         items = list(sequence)
     # Attempt to make each value an integer
     for idx, value in enumerate(items):
+        if value == '':
+            # An empty parameter means the default value, which is 0 (RESET) for a graphic rendition
+            items[idx] = AnsiParam.RESET.value
+            continue
         try:
             items[idx] = int(value)
         except ValueError:
